@@ -4,6 +4,7 @@
    Transcribed from
      pkg/apis/controller/experiments/v1beta1/experiment_defaults.go   (Experiment.SetDefault)          -> set_default
      pkg/webhook/v1beta1/experiment/validator/validator.go            (DefaultValidator.ValidateExperiment and helpers) -> validate_gen
+         (the REPAIRED validator: rule 59 = duplicate-parameter-name / F8b, rule 60 = unreferenced-parameter / F8)
      pkg/util/v1beta1/katibconfig/config.go                           (Get*ConfigData: last match wins, image must be non blank)
      pkg/controller.v1beta1/experiment/manifest/generator.go          (GetTrialTemplate, applyParameters) -> get_trial_template, apply_parameters
      pkg/controller.v1beta1/util/suggestion.go, suggestionclient.go   (derived names)                   -> suggestion_resource_name, trial_name
@@ -214,7 +215,8 @@ Definition set_default (e : experiment) : experiment :=
    49 File: filter with JSON          50 TfEvent: path/kind              51 TfEvent: format set
    52 Prometheus: port                53 Prometheus: path                54 Custom: customCollector required
    55 Custom: fileSystemPath invalid  56 collector kind invalid          57 filter[i] does not compile
-   58 filter[i] lacks two groups     900 harness and model disagree on the substituted template text (never produced by Go) *)
+   58 filter[i] lacks two groups      59 parameters[i].name duplicated   60 parameters[i].name not referenced by trialParameters
+  900 harness and model disagree on the substituted template text (never produced by Go) *)
 Definition err := (nat * nat)%type.
 Definition E (rule : nat) : list err := [(rule, 0%nat)].
 Definition when (b : bool) (l : list err) : list err := if b then l else [].
@@ -265,8 +267,12 @@ Definition param_errs (i : nat) (p : param) : list err :=
         | _ => []
         end).
 
-Fixpoint params_errs (i : nat) (ps : list param) : list err :=
-  match ps with [] => [] | p :: r => param_errs i p ++ params_errs (S i) r end.
+(* validateParameters; [seen] = the names of the entries before index i (rule 59, repair of duplicate-parameter-name) *)
+Fixpoint params_errs (i : nat) (seen : list string) (ps : list param) : list err :=
+  match ps with
+  | [] => []
+  | p :: r => when (str_mem (p_name p) seen) [(59%nat, i)] ++ param_errs i p ++ params_errs (S i) (p_name p :: seen) r
+  end.
 
 (* --- trial template --- *)
 
@@ -351,6 +357,32 @@ Definition template_errs (en : env) (e : experiment) : outcome (list err) :=
           end
       end
   end.
+
+(* --- every search-space parameter is consumed by the template (validateParametersReferences, repair of unreferenced-parameter) --- *)
+
+(* a trial parameter consumes an assignment iff its reference does not match \$\{trialSpec\.(.+?)\} (generator.applyParameters) *)
+Definition non_meta (p : tparam) : bool := match tp_sub p with None => true | Some _ => false end.
+
+Definition consumed_refs (t : template) : list string :=
+  map tp_ref (filter non_meta (match t_params t with Some ps => ps | None => [] end)).
+
+Fixpoint unref_errs (i : nat) (refs : list string) (ps : list param) : list err :=
+  match ps with
+  | [] => []
+  | p :: r => when (negb (str_mem (p_name p) refs)) [(60%nat, i)] ++ unref_errs (S i) refs r
+  end.
+
+Definition referenced_errs (e : experiment) : list err :=
+  match e_template e with
+  | None => []
+  | Some t => unref_errs 0 (consumed_refs t) (e_params e)
+  end.
+
+(* the part of ValidateExperiment between validateTrialTemplate and validateMetricsCollector *)
+Definition pn_errs (e : experiment) : list err :=
+  when (match e_params e with [] => negb (e_nas e) | _ => false end) (E 44) ++
+  when (match e_params e with [] => false | _ => e_nas e end) (E 45) ++
+  params_errs 0 [] (e_params e) ++ referenced_errs e.
 
 (* --- metrics collector --- *)
 
@@ -451,13 +483,10 @@ Definition validate_gen (en : env) (e : experiment) (mid : list err) : outcome (
       | Crash s => Crash s
       | Err c => Err c
       | Ok te =>
-          let pn := when (match e_params e with [] => negb (e_nas e) | _ => false end) (E 44) ++
-                    when (match e_params e with [] => false | _ => e_nas e end) (E 45) ++
-                    params_errs 0 (e_params e) in
           match mc_errs en e with
           | Crash s => Crash s
           | Err c => Err c
-          | Ok me => Ok (pre ++ a ++ te ++ pn ++ me)
+          | Ok me => Ok (pre ++ a ++ te ++ pn_errs e ++ me)
           end
       end
   end.
@@ -520,30 +549,30 @@ Fixpoint assoc (k : string) (l : list (string * string)) : option string :=
   | (k', v) :: r => match assoc k r with Some w => Some w | None => if String.eqb k k' then Some v else None end
   end.   (* assignmentsMap: the LAST assignment of a name wins *)
 
-(* [stale]: metaRefIndex is declared outside the Go loop and keeps the index of an earlier Labels[..]/Annotations[..] reference *)
-Definition resolve (f : tplfacts) (asg : list (string * string)) (stale : string) (p : tparam) : outcome (pvalue * string) :=
+(* metaRefKey / metaRefIndex are declared inside the Go loop: a reference without [index] looks up the empty index *)
+Definition resolve (f : tplfacts) (asg : list (string * string)) (p : tparam) : outcome pvalue :=
   match tp_sub p with
-  | None => match assoc (tp_ref p) asg with Some v => Ok (VAssign v, stale) | None => Err 3%nat end
+  | None => match assoc (tp_ref p) asg with Some v => Ok (VAssign v) | None => Err 3%nat end
   | Some k0 =>
-      let '(k, idx) := match tp_idx p with Some (k1, i) => (k1, i) | None => (k0, stale) end in
-      if String.eqb k "Name" then Ok (VName, idx)
-      else if String.eqb k "Namespace" then Ok (VNamespace, idx)
-      else if String.eqb k "Kind" then Ok (VKind, idx)
-      else if String.eqb k "APIVersion" then Ok (VApiVersion, idx)
-      else if String.eqb k "Annotations" then (if str_mem idx (tf_annotations f) then Ok (VAnnotation idx, idx) else Err 4%nat)
-      else if String.eqb k "Labels" then (if str_mem idx (tf_labels f) then Ok (VLabel idx, idx) else Err 4%nat)
+      let '(k, idx) := match tp_idx p with Some (k1, i) => (k1, i) | None => (k0, "") end in
+      if String.eqb k "Name" then Ok VName
+      else if String.eqb k "Namespace" then Ok VNamespace
+      else if String.eqb k "Kind" then Ok VKind
+      else if String.eqb k "APIVersion" then Ok VApiVersion
+      else if String.eqb k "Annotations" then (if str_mem idx (tf_annotations f) then Ok (VAnnotation idx) else Err 4%nat)
+      else if String.eqb k "Labels" then (if str_mem idx (tf_labels f) then Ok (VLabel idx) else Err 4%nat)
       else Err 4%nat
   end.
 
 (* the loop: placeholder name -> value, and the count of non-meta parameters *)
-Fixpoint resolve_all (f : tplfacts) (asg : list (string * string)) (stale : string) (ps : list tparam)
+Fixpoint resolve_all (f : tplfacts) (asg : list (string * string)) (ps : list tparam)
   : outcome (list (string * pvalue) * nat) :=
   match ps with
   | [] => Ok ([], 0%nat)
   | p :: r =>
-      match resolve f asg stale p with
-      | Ok (v, stale') =>
-          match resolve_all f asg stale' r with
+      match resolve f asg p with
+      | Ok v =>
+          match resolve_all f asg r with
           | Ok (m, n) => Ok ((tp_name p, v) :: m, match v with VAssign _ => S n | _ => n end)
           | Err c => Err c
           | Crash s => Crash s
@@ -562,7 +591,7 @@ Definition apply_parameters (en : env) (e : experiment) (asg : list (string * st
       | Err _ => Err 1%nat
       | Ok _ =>
           if match t_spec t with None => negb (tf_raw_conv (facts en)) | Some _ => false end then Err 2%nat
-          else match resolve_all (facts en) asg "" (match t_params t with Some ps => ps | None => [] end) with
+          else match resolve_all (facts en) asg (match t_params t with Some ps => ps | None => [] end) with
                | Ok (m, n) => if (length asg =? n)%nat then Ok m else Err 5%nat
                | Err c => Err c
                | Crash s => Crash s
